@@ -163,7 +163,7 @@ func runC09(c *explore.Ctx) {
 			runScenario(c, sc, menu, solo, fresh, finalOps, false)
 		}
 	}
-	if !c.Replay || strings.HasPrefix(c.ReplayScope, "BIG-") {
+	if !c.Replay || strings.HasPrefix(c.ReplayScope, "BIG") {
 		c09Big(c, len(scs))
 	}
 	if !c.Replay || strings.HasPrefix(c.ReplayScope, "NEST") {
